@@ -162,9 +162,17 @@ def run_job(job, texts=None):
 
 
 # ------------------------------------------------------------------------------------------------ traces
-def trace_of(o):
-    out = {"ok": "ok", "error": "unrecoverable", "exception": "exception", "hang": "hang"}[o[0]]
-    return [{"k": "report", "sev": s} for s in o[2]] + [{"k": "end", "out": out}]
+_SIG = {}
+
+
+def trace_sig(o):
+    """JSON text of the trace  Report(sev)* ; End(outcome)  of one run"""
+    key = (o[0], o[2] if isinstance(o[2], str) else tuple(o[2]))
+    sg = _SIG.get(key)
+    if sg is None:
+        out = {"ok": "ok", "error": "unrecoverable", "exception": "exception", "hang": "hang"}[o[0]]
+        sg = _SIG[key] = json.dumps([{"k": "report", "sev": s} for s in G.sev_names(o[2])] + [{"k": "end", "out": out}])
+    return sg
 
 
 def validate_traces(run, shapes, raw, label):
@@ -264,36 +272,49 @@ def main(run):
     bytext = {i: t for i, t in items}
     cpu = 1.0
     t0 = time.time()
-    out = pmap(G.run_chunk, [(c, G.HANDLERS, cpu) for c in G.chunks(items, 60 if not thorough else 200)])
-    run.note("assembling_wall_s", round(time.time() - t0, 1))
-    # ---------------------------------------------------------------- traces -> Outcome.tla
-    shapes = {}
-    raw = []
-    runs = []             # (text idx, handler, result tuple, signature)
+    # ---------------------------------------------------------------- runs -> traces (folded batch by batch)
+    shapes = {}                        # trace (JSON text) -> id
+    shape_n = collections.Counter()
+    raw = []                           # the first raw_cap traces, validated one by one
     raw_cap = 100000 if thorough else 25000
-    for ch in out:
-        for idx, res in ch:
-            for h, o in zip(G.HANDLERS, res):
-                sg = json.dumps(trace_of(o))
-                shapes.setdefault(sg, len(shapes))
-                if len(raw) < raw_cap:
-                    raw.append(sg)
-                runs.append((idx, h, o, sg))
+    suspects = []                      # (text idx, handler, result, trace) of runs that are not good by the harness' own reading
+    oc = collections.Counter()
+    n_runs = 0
+    batch = 150000
+    for lo in range(0, len(items), batch):
+        part = items[lo:lo + batch]
+        out = pmap(G.run_chunk, [(c, G.HANDLERS, cpu) for c in G.chunks(part, 60 if not thorough else 150)])
+        for ch in out:
+            for idx, res in ch:
+                for h, o in zip(G.HANDLERS, res):
+                    sg = trace_sig(o)
+                    shapes.setdefault(sg, len(shapes))
+                    shape_n[sg] += 1
+                    n_runs += 1
+                    if len(raw) < raw_cap:
+                        raw.append(sg)
+                    oc[o[0] if not (o[0] == "error" and o[3] == 0) else "silent-failure"] += 1
+                    if not G.is_good(o):
+                        suspects.append((idx, h, o, sg))
+        del out
+    run.note("assembling_wall_s", round(time.time() - t0, 1))
     verdict = validate_traces(run, shapes, raw, "Outcome.tla: traces of the grammar runs")
-    run.add_traces(len(runs))
-    run.add_eval(len(runs))
+    run.add_traces(n_runs)
+    run.add_eval(n_runs)
     run.note("distinct_trace_shapes", len(shapes))
     run.note("traces_validated_one_by_one", len(raw))
-    oc = collections.Counter((o[0] if not (o[0] == "error" and o[3] == 0) else "silent-failure") for _, _, o, _ in runs)
     run.note("outcomes", dict(oc))
     for t in bytext.values():
         run.add_nontrivial(t)
     # ---------------------------------------------------------------- rejected traces
+    n_bad = sum(n for sg, n in shape_n.items() if verdict[sg][0] == "bad")
+    if n_bad != len(suspects) or any(verdict[sg][0] != "bad" for _, _, _, sg in suspects):
+        raise MachineryError(f"Outcome.tla rejects {n_bad} runs, the harness' own reading finds {len(suspects)} bad runs: monitor and harness disagree")
     bad = collections.OrderedDict()          # text idx -> (handler, o, clause)
-    for idx, h, o, sg in runs:
-        v, clause = verdict[sg]
-        if v == "bad" and idx not in bad:
-            bad[idx] = (h, o, clause)
+    for idx, h, o, sg in suspects:
+        if idx not in bad:
+            bad[idx] = (h, (o[0], o[1], G.sev_names(o[2]), o[3]), verdict[sg][1])
+    run.note("rejected_traces", n_bad)
     run.note("rejected_traces_texts", len(bad))
     # confirmation in a process of its own (5 s of CPU); hangs of texts with a cyclic definition (the open
     # finding) are confirmed only up to a cap, the rest is reported from the first run
